@@ -8,12 +8,31 @@ use std::cell::{Cell, RefCell};
 
 pub const BUDGET_PANIC_MESSAGE: &str = "verif: sweep event budget exceeded";
 
+/// Code paths whose use is counted per call (coverage of the shortcuts by the verification inputs).
+pub const NPATHS: usize = 12;
+pub const PATH_NAMES: [&str; NPATHS] = [
+    "intersection found with the upper neighbour on insertion",
+    "intersection found with the lower neighbour on insertion",
+    "intersection found between the new neighbours after a removal",
+    "overlap sharing the left end found on insertion (fields recomputed)",
+    "overlap not sharing the left end found",
+    "divide_segment: division point bumped by one ulp (corner case 1)",
+    "divide_segment: left/right roles of the split-off piece swapped (corner case 2)",
+    "sweep line did not contain the segment to be removed",
+    "contour closed early at its initial point",
+    "contour attached as a hole",
+    "contour started without a lower result edge",
+    "collapsed input edge skipped",
+];
+
 thread_local! {
     static EVENTS: Cell<u64> = const { Cell::new(0) };
     static BUDGET: Cell<u64> = const { Cell::new(u64::MAX) };
     static EARLY_BREAK: Cell<bool> = const { Cell::new(false) };
     static TRIVIAL: Cell<bool> = const { Cell::new(false) };
     static CONTOURS: Cell<u64> = const { Cell::new(0) };
+    static PATHS: Cell<[u64; NPATHS]> = const { Cell::new([0; NPATHS]) };
+    static SITE: Cell<usize> = const { Cell::new(0) };
     #[allow(clippy::type_complexity)]
     static YIELD: RefCell<Option<Box<dyn Fn(&'static str)>>> = const { RefCell::new(None) };
 }
@@ -24,6 +43,32 @@ pub fn begin_call() {
     CONTOURS.with(|c| c.set(0));
     EARLY_BREAK.with(|c| c.set(false));
     TRIVIAL.with(|c| c.set(false));
+    PATHS.with(|c| c.set([0; NPATHS]));
+}
+
+/// Counts one use of code path `i` (see `PATH_NAMES`).
+pub fn path(i: usize) {
+    PATHS.with(|c| {
+        let mut p = c.get();
+        p[i] += 1;
+        c.set(p);
+    });
+}
+
+/// Names the call site of the next `possible_intersection` (0 upper neighbour, 1 lower neighbour,
+/// 2 new neighbours after a removal).
+pub fn set_site(site: usize) {
+    SITE.with(|c| c.set(site));
+}
+
+/// Called by `possible_intersection` when it found a single intersection point.
+pub fn point_intersection_found() {
+    path(SITE.with(|c| c.get()).min(2));
+}
+
+/// Path counters since the last `begin_call` on this thread.
+pub fn paths() -> [u64; NPATHS] {
+    PATHS.with(|c| c.get())
 }
 
 /// Maximal number of sweep events a single `subdivide` may pop on this thread before it panics.
